@@ -757,6 +757,10 @@ def gen_bodies_tz(src):
     return gen_bodies(src, 'tz')
 
 
+def gen_bodies_sedesc(src):
+    return gen_bodies(src, 'sedesc')
+
+
 # ---------------------------------------------------------------- driver
 
 GENERATORS = [('Parser.lean', gen_parser), ('Cal.lean', gen_cal), ('Prop.lean', gen_prop), (None, gen_misc),
@@ -765,7 +769,7 @@ GENERATORS = [('Parser.lean', gen_parser), ('Cal.lean', gen_cal), ('Prop.lean', 
               ('BodiesAlarm.lean', gen_bodies_alarm), ('BodiesWalk.lean', gen_bodies_walk), ('BodiesSer.lean', gen_bodies_ser),
               ('BodiesCDict.lean', gen_bodies_cdict), ('BodiesSE.lean', gen_bodies_se), ('BodiesParse.lean', gen_bodies_parse), ('BodiesRecur.lean', gen_bodies_recur), ('BodiesAdd.lean', gen_bodies_add), ('BodiesCDictMeta.lean', gen_bodies_cdmeta),
               ('BodiesTzUse.lean', gen_bodies_tzuse), ('BodiesCDictSort.lean', gen_bodies_cdsort),
-              ('BodiesTz.lean', gen_bodies_tz)]
+              ('BodiesTz.lean', gen_bodies_tz), ('BodiesSEDesc.lean', gen_bodies_sedesc)]
 
 
 def write_if_changed(path, content):
